@@ -8,7 +8,7 @@ from .c04 import judge
 
 IMPORTS = ('From OFV Require Import Base.Cplx Base.Lin Sem.PauliSem Sem.FermiSem Model.SymbolicOp Model.QubitOp Model.LadderOp Model.JordanWigner '
            'Model.Program Check.DictEquiv Check.OpEquiv Check.Commutator Check.Reductions.\n')
-NEEDS = ['Check/Reductions']
+NEEDS = ['Check/Reductions', 'Thm/C16/SectorSound']
 def cNl(l): return '(' + clist([cN(int(x)) for x in l]) + ' : list N)'
 def cbl(l): return '(' + clist([cbool(bool(x)) for x in l]) + ' : list bool)'
 def cqops(l): return '(' + clist(l) + ' : list qop)'
